@@ -171,7 +171,7 @@ class Check(DiffCheck):
     # lockset engine (lib/lockset.py): die/standby/dequeue blocks happen under the locks the life-cycle model assumes
     lockset_rules = {12, 13, 14, 15, 16, 17}
     coq_dirs = ['Base', 'E3', 'C05']
-    coq_targets = ['C05/C05_AsymProofs.vo', 'C05/C05_AsymTSO.vo', 'C05/C05_Proofs.vo', 'C05/C05_Proofs2.vo', 'C05/C05_Proofs3.vo', 'C05/C05_Proofs4.vo', 'C05/C05_Proofs5.vo', 'C05/C05_PoolProofs.vo', 'C05/C05_E4Proofs.vo']
+    coq_targets = ['C05/C05_AsymProofs.vo', 'C05/C05_AsymTSO.vo', 'C05/C05_Proofs.vo', 'C05/C05_Proofs2.vo', 'C05/C05_Proofs3.vo', 'C05/C05_Proofs4.vo', 'C05/C05_Proofs5.vo', 'C05/C05_PoolProofs.vo', 'C05/C05_E4Proofs.vo', 'C05/C05_FiniProofs.vo']
     properties_v = 'C05/C05_Properties.v'
     extract_v = 'C05/C05_Extract.v'
     runner_ml = 'ocaml/C05_run.ml'
